@@ -4,6 +4,8 @@
    well-formed states of any dimensions (no panic), symmetric where stated. *)
 From GX.Model Require Import Base CMS Bloom HLL Cuckoo Heap TopK Codec Persist.
 From GX.Proofs Require Import ListLemmas CodecProofs EqualsProofs.
+From GX.Model Require Import Redis RedisCMS RedisHLL RedisCuckoo.
+From GX.Proofs Require Import RedisCMSRefine RedisHLLRefine RedisEqualsProofs.
 
 Theorem C17_bloom_sound : forall a b, bloom_equals a b = true ->
   b_size a = b_size b /\ b_k a = b_k b /\ b_bits a = b_bits b.
@@ -44,6 +46,33 @@ Proof. exact topk_equals_sound. Qed.
 Theorem C17_topk_refl : forall p t, topk_equals p t p t = Ok true.
 Proof. exact topk_equals_refl. Qed.
 
+(* Redis-backed Count-Min sketch: while the row lists represent matrices ma and mb (refines), the
+   Lua compare script answers true EXACTLY when the matrices are equal - sound, complete, and
+   therefore symmetric, for sketches of equal dimensions *)
+Theorem C17_redis_cms_equals_iff : forall rows cols s a b ma mb,
+  refines rows cols s a ma -> refines rows cols s b mb ->
+  (rcms_equals s a b = true <-> c_matrix ma = c_matrix mb).
+Proof. exact equals_refines. Qed.
+
+(* Redis-backed HyperLogLog: while the lists represent the registers (hrefines), the compare
+   script answers true exactly when the registers are equal *)
+Theorem C17_redis_hll_equals_iff : forall s a b ma mb,
+  hrefines s a ma -> hrefines s b mb -> h_m ma = h_m mb ->
+  (rhll_equals s a b = true <-> h_regs ma = h_regs mb).
+Proof. exact hll_equals_refines. Qed.
+
+(* Redis-backed cuckoo filter: a true Equals means equal parameters, equal Length and - for
+   bucket lists within capacity, which the accounting invariant of C13 guarantees - identical
+   bucket contents *)
+Theorem C17_redis_cuckoo_sound : forall s a b,
+  (forall i, i < rq_size a -> (length (r_list s (bucket_key (rq_key a) i)) <= N.to_nat (rq_bsize a))%nat /\
+                              (length (r_list s (bucket_key (rq_key b) i)) <= N.to_nat (rq_bsize a))%nat) ->
+  rck_equals s a b = true ->
+  rq_size a = rq_size b /\ rq_bsize a = rq_bsize b /\ rq_fpl a = rq_fpl b /\ rq_retries a = rq_retries b /\
+  rck_length s a = rck_length s b /\
+  forall i, i < rq_size a -> r_list s (bucket_key (rq_key a) i) = r_list s (bucket_key (rq_key b) i).
+Proof. exact rck_equals_sound. Qed.
+
 Print Assumptions C17_bloom_sound.
 Print Assumptions C17_bloom_sym.
 Print Assumptions C17_bloom_queries_agree.
@@ -53,3 +82,6 @@ Print Assumptions C17_hll_sound.
 Print Assumptions C17_hll_total.
 Print Assumptions C17_cuckoo_sound.
 Print Assumptions C17_topk_sound.
+Print Assumptions C17_redis_cms_equals_iff.
+Print Assumptions C17_redis_hll_equals_iff.
+Print Assumptions C17_redis_cuckoo_sound.
